@@ -23,7 +23,10 @@ RULE = (
     "commutes: pairs of gates (same shape) or operations laid out on a <=4 qubit register (disjoint / partly / fully overlapping, "
     "permuted), incl. near-commuting pairs at the scale of atol, atol in {1e-8,1e-6,1e-3}. equality: a gate and a related gate "
     "(same params, exponent + k periods, other shift, perturbation 1e-9..1e-3, PhasedXZ canonical variants, subclass/alias "
-    "constructors) for ==/hash/approx_eq/equal_up_to_global_phase. unary: has_stabilizer_effect, trace_distance_bound, "
+    "constructors) for ==/hash/approx_eq/equal_up_to_global_phase. controlled_equality: pairs of ControlledOperation / ControlledGate "
+    "values over 1-3 controls of dimension 2-4 whose control values are written independently as ProductOfSums / SumOfProducts "
+    "(same expansion in another spelling, strict subsets, SoPs whose per-control columns equal the PoS sums, permuted controls, "
+    "unsorted / duplicated rows), same or different sub-gate, plus Moment/Circuit equality built on them. unary: has_stabilizer_effect, trace_distance_bound, "
     "pauli_expansion. Non-trivial: exponent/parameters off the half-integer lattice, a control spec other than all-ones, a pair of "
     "operations sharing some but not all qubits, a related-but-not-identical pair for the equality family."
 )
@@ -713,6 +716,217 @@ def oracle_equality(r):
             "family": r["a"][0], "level": "op" if r["op"] and same_shape else "gate", "same_eigen_converse": bool(same_eigen and d_phase <= 1e-12)}
 
 
+# ----------------------------------------------------------------------------- 5b. equality of controlled gates / operations
+
+_CE_SUBS = [
+    ["XPow", {"e": 1.0, "s": 0.0}], ["XPow", {"e": 0.5, "s": 0.0}], ["YPow", {"e": 1.0, "s": 0.0}], ["ZPow", {"e": 0.5, "s": 0.0}],
+    ["ZPow", {"e": 2.0, "s": 0.0}],  # identity matrix, not an identity gate
+    ["HPow", {"e": 1.0, "s": 0.0}], ["ZPow", {"e": 0.25, "s": 0.5}], ["Identity", {"n": 1}], ["XPowD", {"d": 3, "e": 1.0, "s": 0.0}],
+    ["CZPow", {"e": 1.0, "s": 0.0}], ["QuditPlus", {"d": 3, "k": 1}],
+]
+
+
+def _ce_expand(spec):
+    """Set of active control tuples of {"kind": "pos"|"sop", "vals": ...} -- written independently of control_values.py."""
+    if spec["kind"] == "pos":
+        out = {()}
+        for v in spec["vals"]:
+            alts = [v] if isinstance(v, int) else list(v)
+            out = {t + (x,) for t in out for x in alts}
+        return out
+    return {tuple(row) for row in spec["vals"]}
+
+
+@st.composite
+def _ce_pos(draw, dims, multi=False):
+    vals = []
+    for d in dims:
+        k = draw(st.integers(2 if multi and d >= 2 else 1, d))
+        chosen = list(draw(st.permutations(list(range(d)))))[:k]
+        if draw(st.integers(0, 3)) == 0:
+            chosen = chosen + [chosen[0]]  # duplicated value, unsorted
+        vals.append(chosen[0] if len(chosen) == 1 and draw(st.booleans()) else chosen)
+    return {"kind": "pos", "vals": vals}
+
+
+@st.composite
+def _ce_rows(draw, rows):
+    """Write a set of conjunctions as SumOfProducts data: shuffled, possibly with duplicated rows."""
+    rows = [list(r) for r in draw(st.permutations(sorted(rows)))]
+    if rows and draw(st.integers(0, 2)) == 0:
+        rows = rows + [rows[draw(st.integers(0, len(rows) - 1))]]
+    return {"kind": "sop", "vals": rows}
+
+
+@st.composite
+def _ce_case(draw):
+    n = draw(st.integers(1, 3))
+    dims = [draw(st.sampled_from([2, 2, 2, 3, 3, 4])) for _ in range(n)]
+    while L.dim(dims) > 36:
+        dims[dims.index(max(dims))] -= 1
+    allrows = list(itertools.product(*[range(d) for d in dims]))
+    mode = draw(st.sampled_from(["near_collision", "near_collision", "same_expansion", "same_expansion", "independent", "subset", "permuted"]))
+    if mode == "near_collision":
+        # PoS with multi-valued controls vs an SoP whose per-control column sets equal the sums but whose expansion is a strict subset
+        a = draw(_ce_pos(dims, multi=True))
+        sums = [sorted(set([v] if isinstance(v, int) else v)) for v in a["vals"]]
+        m = max(len(x) for x in sums)
+        shifts = [draw(st.integers(0, 3)) for _ in sums]
+        rows = {tuple(x[(k + sh) % len(x)] for x, sh in zip(sums, shifts)) for k in range(m)}
+        full = sorted(_ce_expand(a))
+        extra = draw(st.integers(0, 2))
+        for r in list(draw(st.permutations(full)))[:extra]:
+            rows.add(tuple(r))
+        b = draw(_ce_rows(rows))
+        if draw(st.booleans()):
+            a, b = b, a
+    elif mode == "same_expansion":
+        a = draw(st.one_of(_ce_pos(dims), _ce_rows(set(list(draw(st.permutations(allrows)))[:draw(st.integers(1, min(5, len(allrows))))]))))
+        ea = _ce_expand(a)
+        if a["kind"] == "sop" and draw(st.booleans()):
+            # factorable? then also offer the PoS spelling
+            cols = [sorted({r[i] for r in ea}) for i in range(n)]
+            b = {"kind": "pos", "vals": [list(reversed(c)) for c in cols]} if set(itertools.product(*cols)) == ea else draw(_ce_rows(ea))
+        else:
+            b = draw(_ce_rows(ea))
+    elif mode == "subset":
+        a = draw(st.one_of(_ce_pos(dims, multi=True), _ce_rows(set(list(draw(st.permutations(allrows)))[:draw(st.integers(2, min(6, max(2, len(allrows)))))]))))
+        ea = sorted(_ce_expand(a))
+        keep = draw(st.integers(1, max(1, len(ea) - 1)))
+        b = draw(_ce_rows(set(list(draw(st.permutations(ea)))[:keep])))
+    else:
+        a = draw(st.one_of(_ce_pos(dims), _ce_rows(set(list(draw(st.permutations(allrows)))[:draw(st.integers(1, min(5, len(allrows))))]))))
+        b = draw(st.one_of(_ce_pos(dims), _ce_rows(set(list(draw(st.permutations(allrows)))[:draw(st.integers(1, min(5, len(allrows))))]))))
+        if mode == "permuted":
+            b = {"kind": a["kind"], "vals": [list(v) if isinstance(v, list) else v for v in a["vals"]]}
+    perm = list(range(n))
+    if mode == "permuted" or draw(st.integers(0, 4)) == 0:
+        perm = list(draw(st.permutations(list(range(n)))))
+    sub_a = draw(st.sampled_from(_CE_SUBS))
+    sub_b = sub_a if draw(st.integers(0, 3)) > 0 else draw(st.sampled_from(_CE_SUBS))
+    return {"dims": dims, "a": a, "b": b, "perm": perm, "sub_a": sub_a, "sub_b": sub_b, "mode": mode,
+            "via": draw(st.sampled_from(["cop", "cop", "controlled_by", "cgate", "gate_controlled"])),
+            "atol": draw(st.sampled_from([1e-8, 1e-6, 1e-3]))}
+
+
+def _ce_cv(spec):
+    if spec["kind"] == "pos":
+        return cirq.ProductOfSums([v if isinstance(v, int) else tuple(v) for v in spec["vals"]])
+    return cirq.SumOfProducts([tuple(r) for r in spec["vals"]])
+
+
+def _ce_block(u, tdim, dims, active):
+    C = L.dim(dims)
+    out = np.eye(C * tdim, dtype=complex)
+    for idx, c in enumerate(itertools.product(*[range(d) for d in dims])):
+        if tuple(c) in active:
+            out[idx * tdim:(idx + 1) * tdim, idx * tdim:(idx + 1) * tdim] = u
+    return out
+
+
+def oracle_controlled_equality(r):
+    dims = [int(d) for d in r["dims"]]
+    n = len(dims)
+    perm = [int(x) for x in r["perm"]]
+    if not (1 <= n <= 3) or any(not 2 <= d <= 4 for d in dims) or sorted(perm) != list(range(n)) or r["atol"] not in (1e-8, 1e-6, 1e-3):
+        raise Reject("outside the generated domain (minimiser)")
+    for spec in (r["a"], r["b"]):
+        rows = _ce_expand(spec) if spec.get("vals") else set()
+        if not rows or any(len(t) != n or any(not 0 <= x < d for x, d in zip(t, dims)) for t in rows):
+            raise Reject("control values outside the generated domain (minimiser)")
+    ga, gb = build(r["sub_a"]), build(r["sub_b"])
+    sa, sb = shape_of(r["sub_a"]), shape_of(r["sub_b"])
+    ua, ub = cirq.unitary(ga), cirq.unitary(gb)
+    ea, eb = _ce_expand(r["a"]), _ce_expand(r["b"])
+    gate_level = r["via"] in ("cgate", "gate_controlled")
+    # b is written with its controls in the order perm: position j of b's spec talks about control perm[j]
+    dims_b = [dims[p] for p in perm]
+
+    def b_spec_permuted():
+        sp = r["b"]
+        if sp["kind"] == "pos":
+            return {"kind": "pos", "vals": [sp["vals"][p] for p in perm]}
+        return {"kind": "sop", "vals": [[row[p] for p in perm] for row in sp["vals"]]}
+
+    spec_b = b_spec_permuted()
+    eb_own = _ce_expand(spec_b)  # in b's own control order
+    cq = [cirq.LineQid(i, dimension=d) for i, d in enumerate(dims)]
+    cq_b = [cq[p] for p in perm]
+    tqa = cirq.LineQid.for_qid_shape(sa, start=100)
+    tqb = cirq.LineQid.for_qid_shape(sb, start=100)
+    cva, cvb = _ce_cv(r["a"]), _ce_cv(spec_b)
+    if r["via"] == "cop":
+        x, y = cirq.ControlledOperation(cq, ga.on(*tqa), cva), cirq.ControlledOperation(cq_b, gb.on(*tqb), cvb)
+    elif r["via"] == "controlled_by":
+        x, y = ga.on(*tqa).controlled_by(*cq, control_values=cva), gb.on(*tqb).controlled_by(*cq_b, control_values=cvb)
+    elif r["via"] == "cgate":
+        x = cirq.ControlledGate(ga, control_values=cva, control_qid_shape=tuple(dims))
+        y = cirq.ControlledGate(gb, control_values=cvb, control_qid_shape=tuple(dims_b))
+    else:
+        x = ga.controlled(control_values=cva, control_qid_shape=tuple(dims))
+        y = gb.controlled(control_values=cvb, control_qid_shape=tuple(dims_b))
+    # reference matrices (the block structure itself is C08/controlled's business)
+    Ma = _ce_block(ua, L.dim(sa), dims, ea)
+    if gate_level:
+        Mb = _ce_block(ub, L.dim(sb), dims_b, eb_own)  # a gate has no qubits: its matrix is in its own control order
+    else:
+        Mb = _ce_block(ub, L.dim(sb), dims, eb)  # same qubits: b's predicate read back in the canonical control order
+    comparable = Ma.shape == Mb.shape  # judged against the matrices (as in `equality`): only different sizes can never be equal
+    d_exact = L.max_abs_diff(Ma, Mb) if comparable else float("inf")
+    d_phase = L.diff_up_to_phase(Ma, Mb) if comparable else float("inf")
+    atol = r["atol"]
+    what = f"controlled {r['sub_a'][0]} vs {r['sub_b'][0]} via {r['via']} [{r['a']['kind']} vs {r['b']['kind']}, {r['mode']}]"
+    detail = f"\n  dims={dims} a={r['a']} b={r['b']} perm={perm} sub_a={r['sub_a']} sub_b={r['sub_b']} max|Ma-Mb|={d_exact:.3g}"
+    eq = x == y
+    if not isinstance(eq, (bool, np.bool_)):
+        raise Violation(f"{what}: == returned {type(eq).__name__}{detail}")
+    eq = bool(eq)
+    if eq:
+        if d_exact > 1e-9:
+            raise Violation(f"{what}: a == b but the unitaries differ{detail}")
+        if hash(x) != hash(y):
+            raise Violation(f"{what}: a == b but hash(a) != hash(b){detail}")
+        if not bool(y == x):
+            raise Violation(f"{what}: a == b but not b == a{detail}")
+    if bool(x != y) == eq:
+        raise Violation(f"{what}: == and != agree{detail}")
+    try:
+        ae = cirq.approx_eq(x, y, atol=atol)
+    except AttributeError:
+        ae = None
+    if ae is True and d_exact > 8 * atol + 1e-9:
+        raise Violation(f"{what}: approx_eq(atol={atol}) is True but the unitaries differ{detail}")
+    if eq and ae is False:
+        raise Violation(f"{what}: a == b but approx_eq is False{detail}")
+    ep = cirq.equal_up_to_global_phase(x, y, atol=atol)
+    if ep is True and d_phase > 8 * atol + 2e-5:
+        raise Violation(f"{what}: equal_up_to_global_phase(atol={atol}) is True but the unitaries are not proportional{detail}")
+    if eq and ep is False:
+        raise Violation(f"{what}: a == b but equal_up_to_global_phase is False{detail}")
+    if not gate_level:
+        # equality of containers is built on the equality of the operations
+        if (cirq.Moment([x]) == cirq.Moment([y])) and d_exact > 1e-9:
+            raise Violation(f"{what}: Moment([a]) == Moment([b]) but the unitaries differ{detail}")
+        if (cirq.Circuit(x) == cirq.Circuit(y)) and d_exact > 1e-9:
+            raise Violation(f"{what}: Circuit(a) == Circuit(b) but the unitaries differ{detail}")
+    # converse only where it is promised: control values are equal iff their expansions are (AbstractControlValues equality);
+    # same constructor, same controls in the same order, same sub-gate recipe
+    same_written = perm == list(range(n)) and r["sub_a"] == r["sub_b"] and ea == eb
+    if same_written and r["via"] in ("cop", "cgate") and not eq:
+        raise Violation(f"{what}: same controls, same sub-gate and the same expansion of the control values, but a != b{detail}")
+    if same_written and bool(cva == cvb) is not True:
+        raise Violation(f"{what}: control values with the same expansion compare unequal{detail}")
+    if bool(cva == cvb) and set(eb_own) != set(ea):
+        raise Violation(f"{what}: control values compare equal but their expansions differ{detail}")
+    if bool(cva == cvb) and hash(cva) != hash(cvb):
+        raise Violation(f"{what}: equal control values with different hashes{detail}")
+    cross = r["a"]["kind"] != r["b"]["kind"]
+    return {"nontrivial": bool(cross or perm != list(range(n))), "mode": r["mode"], "via": r["via"], "cross_repr": cross, "eq": eq,
+            "approx_eq": ae is True, "eq_phase": ep is True, "matrices_equal": d_exact <= 1e-9, "same_expansion": ea == eb,
+            "columns_collide": bool(cross and ea != eb and [sorted({t[i] for t in ea}) for i in range(n)] == [sorted({t[i] for t in eb}) for i in range(n)]),
+            "qudit_controls": any(d != 2 for d in dims), "n_controls": n, "permuted": perm != list(range(n))}
+
+
 # ----------------------------------------------------------------------------- 6. unary predicates
 
 
@@ -862,6 +1076,12 @@ SUBCHECKS = [
                   "b": ["PauliInteraction", {"e": 1.0, "i0": False, "i1": False, "p0": "X", "p1": "X"}],
                   "how": "other", "atol": 1e-6, "op": False, "alias": False},  # F23 (fixed)
              ]),
+    SubCheck("controlled_equality", _ce_case(), oracle_controlled_equality, quick=5000, thorough=150000, shards_quick=3, shards_thorough=16,
+             essential={"cross_repr": 0.4, "columns_collide": 0.1, "eq": 0.15, "qudit_controls": 0.3, "permuted": 0.06},
+             examples=[{"dims": [2, 2], "a": {"kind": "pos", "vals": [[0, 1], [0, 1]]}, "b": {"kind": "sop", "vals": [[0, 0], [1, 1]]}, "perm": [0, 1],
+                        "sub_a": ["XPow", {"e": 0.5, "s": 0.0}], "sub_b": ["XPow", {"e": 0.5, "s": 0.0}], "mode": "near_collision", "via": "cop", "atol": 1e-8},
+                       {"dims": [3, 3], "a": {"kind": "pos", "vals": [[0, 1], [0, 2]]}, "b": {"kind": "sop", "vals": [[0, 0], [1, 2]]}, "perm": [0, 1],
+                        "sub_a": ["YPow", {"e": 1.0, "s": 0.0}], "sub_b": ["YPow", {"e": 1.0, "s": 0.0}], "mode": "near_collision", "via": "controlled_by", "atol": 1e-8}]),
     SubCheck("unary", _unary_case(), oracle_unary, quick=6000, thorough=200000, shards_quick=4, shards_thorough=16,
              essential={"stabilizer_claim": 0.15},
              examples=[{"g": ["XPowD", {"d": 3, "e": 0.0, "s": 0.5}], "t": 1.5, "wrap": "controlled"}]),  # F16b (fixed)
